@@ -428,6 +428,7 @@ def main(tier, replay):
     n_trunc = 0
     n_independent = 0
     n_independent_diff = 0
+    n_trunc_silent = 0
     encs = sorted(traces)
     results = C.par([lambda e=e: validate(e, [t[0] for t in traces[e]]) for e in encs],
                     max_workers=4)
@@ -452,10 +453,18 @@ def main(tier, replay):
                 clause = v[2]
                 if clause.startswith('model-'):
                     raise C.MachineryError('trace spec/harness problem: %s on %r' % (v, tr))
+                if clause == 'truncation':
+                    # a stream cut inside a character is not an output of encode(): C17 does
+                    # not say what decode() must do with it -> reported, never a verdict
+                    n_trunc_silent += 1
+                    continue
                 V.violation({'op': 'codec', 'encoding': enc, 'strings': tr['strings'],
                              'cuts': list(cuts), 'trunc': trunc, 'trace': tr}, clause,
                             detail='step %s' % v[1])
     V.phase('trace validation')
+    if n_trunc_silent:
+        V.note('%d streams ending inside a character completed silently (the current code raises '
+               'UnicodeDecodeError there); outside C17, never a verdict' % n_trunc_silent)
     if out_of_sync:
         V.note('impl_model_in_sync=false: %d accepted traces released characters in a different '
                'chunk than the model, or wrote nothing for an empty text (allowed by C17)'
@@ -496,9 +505,8 @@ def main(tier, replay):
         'first encode() call, decoder releases a character with its last byte); the axioms are '
         'checked on every recorded trace (model-width, insync)',
         'inputs contain no lone surrogates; latin-1 inputs are restricted to U+0000..U+00FF',
-        'a stream that ends inside a character must not complete silently (clause truncation): '
-        'this is how the final flush of decode() is observable; the property text only names '
-        'loss of characters at chunk boundaries',
+        'streams ending inside a character are explored too, but what decode() does with them is '
+        'only reported (NOTE), never a verdict: C17 speaks about the bytes produced by encode()',
         'with no character to encode an empty wire is accepted as well as a lone BOM',
         'model palette of 5 characters, <=3 strings of <=2 characters; full Unicode and long '
         'strings only through random traces',
